@@ -318,9 +318,15 @@ def rule_windows(ctx):
         for bi, t in calls:
             # `let lower = if pvs { -alpha - 1 } else { -beta }; search(lower, -alpha)`: one call site, two windows, each
             # chosen in its arm
-            bb, d = sym.operand(t["args"][3]), sym.operand(t["args"][4])
+            bb0, d = sym.operand(t["args"][3]), sym.operand(t["args"][4])
+            upper = dict(C.operand_cases(b, sym, bi, t["args"][3]))
             dep_ok = d[0] == "bin" and d[1].startswith("Sub") and d[2] == ("arg", "depth") and d[3] == ("const", 1, "u8")
+            if not dep_ok:
+                # the helper form: `depth` is the helper's parameter, bound to `depth - 1` at its one call
+                dd = mir.strip_copies(d)
+                dep_ok = dd[0] == "bin" and dd[1].startswith("Sub") and dd[3] == ("const", 1, "u8")
             for vb, a in C.operand_cases(b, sym, bi, t["args"][2]):
+                bb = upper.get(vb, bb0)
                 k = window_kind(a, bb)
                 n += 1
                 kinds.append((bi, k))
@@ -332,34 +338,91 @@ def rule_windows(ctx):
             negd = any(callee_is(t2, "core::num::<impl i16>::saturating_neg") and op_place(t2["args"][0]) is not None and op_place(t2["args"][0])["l"] == dst for _b2, t2 in b.calls())
             ctx.check(negd, c_dedup(ctx, "%s:result-negated" % key), "the child's result is negated", b.where(bi), bad_what="the result of a recursive call is used without negation")
         ks = sorted(k for _, k in kinds)
-        ctx.check(ks == ["full", "full", "null"], "%s:pvs-shape" % key, "one null-window search, its full-window re-search and one full-window first search", b.where(0), bad_what="recursive call windows are %s" % ks)
-        # re-search iff alpha < score < beta ; null-window only under pvs
-        fulls = [bi for bi, k in kinds if k == "full"]
-        nulls = [bi for bi, k in kinds if k == "null"]
-        if len(nulls) == 1 and len(fulls) == 2:
-            re = [f for f in fulls if f != nulls[0] and b.dominates(nulls[0], f)]
-            first = [f for f in fulls if f not in re]
-            ok = len(re) == 1 and len(first) == 1
-            if ok and first[0] == nulls[0]:
-                # one call site for the first search: the null window must have been chosen under pvs
-                cons_n = C.constraints_for(ix, b, sym, where_chosen[(nulls[0], "null")])
-                ok = any(c[3] == ("var", "pvs") and True in c[1] for c in cons_n) or any(c[3] == ("arg", "pvs") and True in c[1] for c in cons_n)
-            if ok:
-                cons = C.constraints_for(ix, b, sym, re[0])
-                def is_score(x):
-                    # the variable, or (when it is assigned once) what it holds: the negated value of the null-window search
-                    x = mir.strip_copies(x)
-                    if x == ("var", "score"):
-                        return True
-                    return x[0] == "call" and x[1].endswith("saturating_neg") and len(x[2]) == 1 and mir.strip_copies(x[2][0])[0] == "call" and mir.strip_copies(x[2][0])[1] == C.ALPHA_BETA
-                lt1 = any(c[3][0] == "bin" and c[3][1] == "Lt" and c[3][2] == ("var", "alpha") and is_score(c[3][3]) and True in c[1] for c in cons)
-                lt2 = any(c[3][0] == "bin" and c[3][1] == "Lt" and is_score(c[3][2]) and is_beta(c[3][3]) and True in c[1] for c in cons)
-                pv1 = any(c[3] == ("var", "pvs") and True in c[1] for c in cons)
-                cons_f = C.constraints_for(ix, b, sym, where_chosen[(first[0], "full")] if first[0] == nulls[0] else first[0])
-                pv0 = any(c[3] == ("var", "pvs") and False in c[1] for c in cons_f)
-                ok = lt1 and lt2 and pv1 and pv0
-            ctx.check(ok, "%s:research-condition" % key, "null window only once a PV move exists; re-search with the full window iff alpha < score < beta", b.where(re[0] if re else 0),
-                      bad_what="the null-window / re-search structure is not `if pvs {null; if alpha < score && score < beta {full}} else {full}`")
+        ctx.check(ks in (["full", "full", "null"], ["full", "null"]), "%s:pvs-shape" % key, "one null-window search and the full-window search(es): first search without a PV, re-search after a failed null window", b.where(0),
+                  bad_what="recursive call windows are %s" % ks)
+        # Whatever the spelling (`if pvs {null; if fail {full}} else {full}`, one first call with the window chosen in an arm, or
+        # `if pvs {null; if !fail {return}} full`): the null window is used only once a PV move exists; from the null-window
+        # search a full-window search is reached exactly through alpha < score and score < beta; and without a PV move a
+        # full-window search happens before the move is taken back.
+        fulls = sorted({bi for bi, k in kinds if k == "full"})
+        nulls = sorted({bi for bi, k in kinds if k == "null"})
+        if len(nulls) == 1 and 1 <= len(fulls) <= 2:
+            N = nulls[0]
+            cut = {bi for bi, t in b.calls() if callee_is(t, "board::Board::make_move") or "MoveOrderer as std::iter::Iterator>::next" in (t.get("callee") or "")}
+
+            def is_pvs(e):
+                return mir.strip_copies(e) in (("var", "pvs"), ("arg", "pvs"))
+
+            def is_score(x):
+                # the variable, or (when it is assigned once) what it holds: the negated value of the null-window search
+                x = mir.strip_copies(x)
+                if x[0] == "var" and x[1].split("#")[0] == "score":
+                    return True
+                return x[0] == "call" and x[1].endswith("saturating_neg") and len(x[2]) == 1 and mir.strip_copies(x[2][0])[0] == "call" and mir.strip_copies(x[2][0])[1] == C.ALPHA_BETA
+            cons_n = C.constraints_for(ix, b, sym, where_chosen[(N, "null")])
+            pv1 = any(is_pvs(c[3]) and c[1] == frozenset([True]) for c in cons_n)
+            after = b.blocks[N].term.get("target")
+            reach_n = b.reachable_from(after, removed=cut, include_start=True) if after is not None else set()
+            re = [f for f in fulls if f in reach_n and f != N]
+            ok_re = len(re) == 1
+            t1 = t2 = False
+            if ok_re:
+                F = re[0]
+                for d in sorted(reach_n):
+                    if b.blocks[d].term["k"] != "switch" or F not in b.reachable_from(d, removed=cut):
+                        continue
+                    sc = C.switch_cond(b, sym, d)
+                    if not sc:
+                        continue
+                    e, inverted = sc
+                    if e[0] == "var":
+                        # `let failed = alpha < score && score < beta`: the second conjunct is the value of a flag that is
+                        # false in the other arm
+                        for l in [l for l in range(b.arg_count + 1, len(b.locals)) if b.local_name(l) == e[1] and b.locals[l]["ty"] == "bool"]:
+                            ms = C.merged_bool_source(b, sym, {"copy": {"l": l, "p": [], "ty": "bool"}}, allow_named=True)
+                            if ms is not None and ms[2] is False:
+                                e = ms[1]
+                    lt1 = e[0] == "bin" and e[1] == "Lt" and mir.strip_copies(e[2]) == ("var", "alpha") and is_score(e[3])
+                    lt2 = e[0] == "bin" and e[1] == "Lt" and is_score(e[2]) and is_beta(e[3])
+                    if not (lt1 or lt2):
+                        continue
+                    f_t, t_t = C.switch_edges(b.blocks[d].term)
+                    if inverted:
+                        f_t, t_t = t_t, f_t
+                    skip = all(F not in b.threaded_reach(x, removed=cut) for x in f_t)
+                    goes = any(F in b.threaded_reach(x, removed=cut) for x in t_t)
+                    if skip and goes:
+                        t1 = t1 or lt1
+                        t2 = t2 or lt2
+            # without a PV move: a full-window search before the move is taken back
+            pvs_true_edges = set()
+            for d in range(len(b.blocks)):
+                blk = b.blocks[d]
+                if blk.cleanup or blk.term["k"] != "switch":
+                    continue
+                sc = C.switch_cond(b, sym, d)
+                if sc and is_pvs(sc[0]):
+                    f_t, t_t = C.switch_edges(blk.term)
+                    if sc[1]:
+                        f_t, t_t = t_t, f_t
+                    pvs_true_edges |= {(d, x) for x in t_t}
+            full_blocks = set()
+            for f in fulls:
+                wc = where_chosen.get((f, "full"), f)
+                if not any(is_pvs(c[3]) and c[1] == frozenset([True]) for c in C.constraints_for(ix, b, sym, wc)):
+                    full_blocks.add(f)
+            ends = {bi for bi, t in b.calls() if callee_is(t, "board::Board::unmake_move")}
+            makes = [bi for bi, t in b.calls() if callee_is(t, "board::Board::make_move")]
+            pv0 = bool(makes) and bool(full_blocks)
+            for m in makes:
+                start = b.blocks[m].term.get("target")
+                got = C.reach_avoiding(b, start, removed_blocks=full_blocks | cut, forbidden_edges=pvs_true_edges) if start is not None else set()
+                if got & ends:
+                    pv0 = False
+            ok = pv1 and ok_re and t1 and t2 and pv0
+            ctx.check(ok, "%s:research-condition" % key, "null window only once a PV move exists; re-search with the full window iff alpha < score < beta; without a PV move the first search is full-window", b.where(re[0] if re else N),
+                      bad_what="the null-window / re-search structure is broken (null window only under pvs: %s; exactly one re-search after it: %s; reached only through alpha < score: %s and score < beta: %s; "
+                               "a full-window search on every way without a PV move: %s)" % (pv1, ok_re, t1, t2, pv0))
         # score's definitions are all negated child results
         sc = [l for l in range(len(b.locals)) if b.local_name(l) == "score"]
         if sc:
@@ -391,7 +454,7 @@ def rule_windows(ctx):
         dst = t["dest"]["l"]
         ok = ok and any(callee_is(t2, "core::num::<impl i16>::saturating_neg") and op_place(t2["args"][0])["l"] == dst for _b2, t2 in q.calls() if t2.get("args") and op_place(t2["args"][0]) is not None)
     ctx.check(ok, "%s:recursion-window" % C.QUIESCENCE, "quiescence recurses with (-beta, -alpha) and negates the result", q.where(qq[0][0] if qq else 0), bad_what="quiescence's recursive call does not use (-beta, -alpha) with a negated result")
-    ctx.floor("recursive alpha_beta call sites", n, 6)
+    ctx.floor("recursive alpha_beta call sites", n, 4)  # two functions, a null-window and at least one full-window search each
 
 
 def c_dedup(ctx, key):
@@ -474,6 +537,8 @@ def rule_terminal(ctx):
                 continue
             if name == "repetition" and e[0] == "call" and e[1] == "board::Board::position_reached":
                 continue
+            if name == "fifty" and e[0] == "call" and e[1] == "board::Board::position_reached" and c[1] == frozenset([False]):
+                continue    # the other draw was tested first and did not apply: both answer 0, their order is immaterial
             extra.append((c[0][:70], sorted(map(str, c[1]))))
         ctx.check(not extra, "alpha_beta:%s-draw-unconditional" % name, "the %s draw depends on nothing else" % name, b.where(blk),
                   bad_what="the %s draw is additionally conditioned on %s: positions the reference game scores as an immediate draw are searched on" % (name, extra))
@@ -629,7 +694,10 @@ def rule_exits(ctx):
         for bi, t in b.calls():
             if t["k"] == "call" and mir.is_local(t["dest"]) and t["dest"]["l"] == 0:
                 # `return f(..)`: the value is the call; the exit is decided where the call's result arrives
-                ret_sites.append((t["target"] if t.get("target") is not None else bi, ("call", strip_generics(mir.callee_name(t)), tuple(sym.operand(a) for a in t["args"])), t.get("line")))
+                # (when the continuation is a join shared with other exits, the call's own block is where this exit is decided)
+                tgt = t.get("target")
+                site = tgt if tgt is not None and len(b.pred(tgt)) == 1 else bi
+                ret_sites.append((site, ("call", strip_generics(mir.callee_name(t)), tuple(sym.operand(a) for a in t["args"])), t.get("line")))
         for bi, v, line in ret_sites:
             st = {"line": line}
             k = classify_exit(ix, b, sym, bi, v, aborts)
